@@ -31,6 +31,21 @@ def boundary_cases(variant):
                     yield head + ["cas%s %d %d" % (wd, o, nw), "get" + wd]
 
 
+def lifecycle_probes():
+    """the global mutex of the simulated back-end: every operation, from the main thread and from a second thread,
+    must take it exactly once (`natives`), a second init must keep it, shutdown + init must bring it back;
+    p_atomic_is_lock_free"""
+    yield ["lockfree", "T lockfree"]
+    allops = ["get32", "set32 7", "inc32", "dec32", "cas32 0 1", "add32 5", "and32 12", "or32 3", "xor32 9",
+              "get64", "set64 4294967301", "cas64 4294967301 1", "add64 5", "and64 12", "or64 3", "xor64 9"]
+    for o in allops:
+        yield ["natives", o, "natives", "T " + o, "natives"]
+    yield ["natives"] + ["T " + o for o in allops] + ["natives"] + allops + ["natives"]
+    yield ["natives", "init", "add32 1", "T add32 1", "natives", "init", "init", "T cas32 2 9", "get32", "natives"]
+    yield ["add32 1", "natives", "shutdown", "natives", "add32 1", "natives", "init", "T add32 1", "inc32", "natives",
+           "shutdown", "natives", "init", "init", "T get32", "natives"]
+
+
 def rand_operand(rng, mask):
     r = rng.random()
     if r < 0.35:
@@ -95,6 +110,25 @@ def random_case(rng, chk, variant, n):
             elif k == "xor":
                 w[wd] ^= v % m
     ops += ["get32", "get64"]
+    if rng.random() < 0.06:
+        # some of the ops on a second thread, native-call counts, life cycle of the global mutex
+        out = ["natives"]
+        for o in ops:
+            r = rng.random()
+            if r < 0.05:
+                out += ["natives", "init"]
+                chk.bump("life:init-again")
+            elif r < 0.08:
+                out += ["natives", "shutdown", "natives"] + (["init"] if rng.random() < 0.8 else [])
+                chk.bump("life:shutdown")
+            elif r < 0.1:
+                out.append("init")
+            if rng.random() < 0.3:
+                out.append("T " + o)
+                chk.bump("second-thread-op")
+            else:
+                out.append(o)
+        ops = out + ["natives", "init"]
     return ops
 
 
@@ -166,7 +200,7 @@ def run(chk):
     if driver_ok:
         for v, fam in fams.items():
             cases = ac.corpus_for("C04", v)
-            bnd = list(boundary_cases(v))
+            bnd = list(boundary_cases(v)) + list(lifecycle_probes())
             rnd = [random_case(rng, chk, v, 10) for _ in range(nrand)]
             allc = cases + bnd + rnd
             op_evals += sum(len(c) for c in allc)
